@@ -1,0 +1,56 @@
+//go:build verif
+
+// Contracts for package fio, read by /verif/govc (comment-only).
+package fio
+
+// Ghost state of a ReadWriter (keyed by the dynamic value):
+//   size    logical size in bytes (what Size() reports, what the next Write appends at)
+//   durable number of leading bytes known to be on stable storage (durable <= size)
+//   closed  Close has been called
+//   data    the bytes
+//@ ghost field fio.ReadWriter.size int
+//@ ghost field fio.ReadWriter.durable int
+//@ ghost field fio.ReadWriter.closed bool
+//@ ghost field fio.ReadWriter.data intarr
+//   writes  number of Write calls issued so far (one record or one batch flush = one call)
+//@ ghost field fio.ReadWriter.writes int
+
+//@ func iface (fio.ReadWriter).Read
+//@   params self b offset
+//@   modifies b[*]
+//@   ensures [count] 0 <= result0 && result0 <= len(b)
+//@   assume  [reads-within-the-file-succeed] 0 <= offset && offset + len(b) <= self.size ==> result1 == nil
+//@   assume  [io-error-identity] !engineErr(result1) && result1 != datafile.ErrClosed && result1 != datafile.ErrInvalidCRC && result1 != datafile.ErrIncompleteChunk
+
+//@ func iface (fio.ReadWriter).Write
+//@   params self b
+//@   modifies self.size, self.data, self.writes
+//@   ensures [counted]    self.writes == old(self.writes) + 1
+//@   ensures [appended]   result1 == nil ==> self.size == old(self.size) + len(b) && result0 == len(b)
+//@   ensures [all-or-nothing] result1 != nil ==> self.size == old(self.size)
+//@   assume  [fs-max-file-size] self.size <= 35184372088832
+//@   assume  [io-error-identity] !engineErr(result1)
+
+//@ func iface (fio.ReadWriter).Sync
+//@   params self
+//@   modifies self.durable
+//@   ensures [flushed] result == nil ==> self.durable == self.size
+//@   ensures [err-keeps] result != nil ==> self.durable == old(self.durable)
+//@   assume  [io-error-identity] !engineErr(result)
+
+//@ func iface (fio.ReadWriter).Close
+//@   params self
+//@   modifies self.durable, self.closed
+//@   ensures [flush-then-close] result == nil ==> self.durable == self.size && self.closed
+//@   assume  [io-error-identity] !engineErr(result)
+
+//@ func iface (fio.ReadWriter).Size
+//@   params self
+//@   pure
+//@   ensures [size] result1 == nil ==> result0 == self.size
+//@   assume  [io-error-identity] !engineErr(result1)
+
+//@ func fio.NewReadWriter
+//@   trusted
+//@   ensures [io-error-identity] !engineErr(result1)
+//@   ensures [open] result1 == nil ==> result0 != nil && fresh(result0) && 0 <= result0.size && result0.size <= 35184372088832 && result0.durable == result0.size && !result0.closed && result0.writes == 0
